@@ -164,15 +164,15 @@ class Solver(ABC):
                 raise ValueError("Must provide either problem instance or config")
             self.problem = instantiate(self.config.problem)
 
+        # Set up precision (before any array is created)
+        self.jax_double_precision = self.config.jax_double_precision
+        if self.jax_double_precision:
+            jax.config.update("jax_enable_x64", True)
+
         # Store core attributes
         self.gamma = jnp.array(self.config.gamma)
         self.epsilon = self.config.epsilon
         self.max_batch_size = self.config.max_batch_size
-
-        # Set up precision
-        self.jax_double_precision = self.config.jax_double_precision
-        if self.jax_double_precision:
-            jax.config.update("jax_enable_x64", True)
 
         # Set up logging
         self.set_verbosity(self.config.verbose)
